@@ -160,28 +160,35 @@ def _lookup_semantics(ctx, decl_fields: List[str]) -> Set[str]:
     def elem_cls(field: str):
         t = prog.ann_to_type(fc.module, fields[field][0], fc)
         return prog.classes.get(t[1][1]) if t[0] == 'list' and t[1][0] == 'cls' else None
-    try:
-        fqns = [seq for n in (1, 2, 3) for seq in itertools.product(('a', 'ab'), repeat=n)]
+    fqns = [seq for n in (1, 2, 3) for seq in itertools.product(('a', 'ab'), repeat=n)]
+
+    def build(layout: str):
+        """-> (FileContents object, [(declaration, fqn)]).  Layouts: the declarations spread over the containers in turn, or all of
+        them in one container (several matches of one lookup within ONE container - and none in the others - occur only there)."""
         contents: Dict[str, list] = {f: [] for f in fields}
-        decls = []          # (Obj, fqn tuple)
-        cyc = itertools.cycle(sorted(decl_fields))
+        decls_ = []          # (Obj, fqn tuple)
+        order = sorted(decl_fields)
+        cyc = itertools.cycle(order if layout == 'spread' else [order[0]] if layout == 'first' else [order[-1]])
         for seq in fqns + [('a', 'b'), ('b',)]:
             f = next(cyc)
             c = elem_cls(f)
             if c is None:
-                return decided
+                raise Undecided(f'element class of FileContents.{f}')
             o = Obj(c, {'fqn': ids(seq)})
             contents[f].append(o)
-            decls.append((o, seq))
+            decls_.append((o, seq))
         for f in fields:
             if f not in decl_fields:
                 c = elem_cls(f)
                 if c is not None:
                     contents[f].append(Obj(c, {'name': 'decoy.dzn', 'fqn': ids(('a',))}))
-        fct = it.construct(fc, [], {})          # every field by its declared default ...
+        fct_ = it.construct(fc, [], {})          # every field by its declared default ...
         for k, v in contents.items():
-            if isinstance(fct.fields.get(k), list) or k not in fct.fields:
-                fct.fields[k] = v               # ... the containers filled with the universe
+            if isinstance(fct_.fields.get(k), list) or k not in fct_.fields:
+                fct_.fields[k] = v               # ... the containers filled with the universe
+        return fct_, decls_
+    try:
+        worlds = [(lay, ) + build(lay) for lay in ('spread', 'first', 'last')]
     except (Raised, Undecided):
         return decided
     names = [seq for n in (1, 2) for seq in itertools.product(('a', 'ab'), repeat=n)]
@@ -192,8 +199,9 @@ def _lookup_semantics(ctx, decl_fields: List[str]) -> Set[str]:
         bad: List[str] = []
         n = 0
         try:
-            for args, label in calls:
+            for (lay, fct, decls), (args, label) in itertools.product(worlds, calls):
                 n += 1
+                label = label if lay == 'spread' else f'{label}, all declarations in the {lay} container'
                 try:
                     res = it.call_function(fn, [fct] + args, {})
                 except Raised as exc:
@@ -202,7 +210,7 @@ def _lookup_semantics(ctx, decl_fields: List[str]) -> Set[str]:
                 items = res.fields.get('items') if isinstance(res, Obj) else None
                 if not isinstance(items, list):
                     raise Undecided('result is not a FindResult with items')
-                want = expect(*args)
+                want = expect(decls, *args)
                 got_ids = [id(x) for x in items]
                 want_ids = [id(o) for o, _s in want]
                 if sorted(got_ids) != sorted(want_ids):
@@ -218,20 +226,20 @@ def _lookup_semantics(ctx, decl_fields: List[str]) -> Set[str]:
             return
         decided.add(fname)
         for rule_ in ('C14.containers', 'C14.once'):
-          run.add(rule_, fn.module.name, fn.qualname, f'{fname}: {n} lookups over {len(decls)} declarations', not bad,
+          run.add(rule_, fn.module.name, fn.qualname, f'{fname}: {n} lookups over {len(worlds[0][2])} declarations in {len(worlds)} layouts', not bad,
                 (f'{fname} returns exactly the declarations on the scope chain, each once, never a file name or import '
                  f'(interpreted on {n} lookups)' if fname == 'find_fqn' else
                  f'{fname} returns exactly the declarations whose name ends with the identifiers, each once ({n} lookups)') if not bad
                 else f'{len(bad)} of {n} lookups disagree, e.g. ' + '; '.join(bad[:2]))
         run.stats.setdefault('lookup_scenarios', {})[fname] = n
 
-    def chain_expect(name_obj, scope_obj=None):
+    def chain_expect(decls, name_obj, scope_obj=None):
         nm = tuple(name_obj.fields['items'])
         sc = tuple(scope_obj.fields['items']) if scope_obj is not None else ()
         cands = {sc[:k] + nm for k in range(len(sc), -1, -1)}
         return [(o, s_) for o, s_ in decls if s_ in cands]
 
-    def suffix_expect(suffix_obj):
+    def suffix_expect(decls, suffix_obj):
         sf = tuple(suffix_obj.fields['items'])
         return [(o, s_) for o, s_ in decls if len(s_) >= len(sf) and s_[len(s_) - len(sf):] == sf]
     try:
